@@ -112,7 +112,7 @@ ReferralC(n, cut) ==
   Referral(n, {Rec(n, "NS", x) : x \in cut.ns}, {Rec(n, "DS", x) : x \in cut.ds}, cut.glue)
 
 GlueNow(S, v, ns) ==
-  UNION {{Rec(m, AddrType, y) : y \in LiveVals(S, v, m, AddrType)} :
+  UNION {UNION {{Rec(m, t, y) : y \in LiveVals(S, v, m, t)} : t \in AddrTypes} :
            m \in {x \in S.nodes \cup {Apex} : \E z \in ns : NsTarget(z) = x}}
 
 \* The special the read algorithm acts on.  With D = all deviations this is
@@ -290,16 +290,18 @@ vars == <<svars, act, snap>>
 
 Versions == 0..MaxVer
 
-Init ==
+InitWith(z) ==
   /\ store = EmptyStore /\ current = 0 /\ allv = {0}
   /\ wlock = "none" /\ wst = [w \in Writers |-> "idle"] /\ wnv = [w \in Writers |-> 0]
   /\ wkind = [w \in Writers |-> "W"]
   /\ dirty = [w \in Writers |-> FALSE]
   /\ readers = [r \in Readers |-> -1]
-  /\ phase = "zonefile" /\ zf = {Rec(Apex, "SOA", 1)}
+  /\ phase = "zonefile" /\ zf = z
   /\ committed = [v \in Versions |-> {}] /\ pend = {}
   /\ nops = 0 /\ act = [a |-> "Init"]
   /\ snap = [v \in Versions |-> EmptyStore]
+
+Init == InitWith({Rec(Apex, "SOA", 1)})    \* a zone file starts with the SOA
 
 \* ---- construction route 1: zone file -> ZoneBuilder -> Zone
 ZfInsert(r) ==
@@ -313,7 +315,7 @@ Build ==
   /\ phase = "zonefile"
   /\ phase' = "live" /\ store' = BuildStore(zf)
   /\ committed' = [committed EXCEPT ![0] = zf]
-  /\ act' = [a |-> "Build"]
+  /\ act' = [a |-> "Build", zf |-> zf]
   /\ snap' = [snap EXCEPT ![0] = BuildStore(zf)]
   /\ UNCHANGED <<current, allv, wlock, wst, wkind, wnv, dirty, readers, zf, pend, nops>>
 
@@ -542,6 +544,20 @@ DeviationsExplain ==
     \A v \in Published : \A q \in Queries :
       \A a \in ConcreteAnswer(store, v, q[1], q[2], Dev) \ Admissible(v, q[1], q[2]) :
          BlameOf(v, q[1], q[2], a) # {}
+
+\* Liveness (model only).  Weak fairness on the steps by which a lock holder
+\* proceeds (second commit step, drop); the update lock (tokio Mutex, FIFO) is
+\* fair to waiters: strong fairness on acquisition.
+Fairness ==
+  \A w \in Writers :
+    /\ WF_vars(DropWriter(w)) /\ WF_vars(CommitPushVersion(w))
+    /\ SF_vars(\E k \in {"W", "U"} : AcquireWriteLock(w, k))
+LiveSpec == Spec /\ Fairness
+\* a writer that was granted the lock eventually releases it
+LockEventuallyReleased == \A w \in Writers : (wlock = w) ~> (wlock # w)
+\* a writer waiting for the lock eventually gets it (while versions remain)
+QueuedWriterGetsLock ==
+  \A w \in Writers : (phase = "live" /\ wst[w] = "idle") ~> (wst[w] # "idle" \/ current >= MaxVer)
 
 TypeOK ==
   /\ current \in Versions /\ wlock \in Writers \cup {"none"}
